@@ -569,7 +569,19 @@ macro_rules! chain_row {
                     for (i, t) in tabs.iter().enumerate() {
                         match c.decode(t) {
                             Ok(s) => syms.push(s),
-                            Err(DecErr::OutOfData) => return Ok((syms, Some(i))),
+                            Err(DecErr::OutOfData) => {
+                                // there is no further chunk: the coder must stay out of data (a failed attempt must not
+                                // conjure up bits for later ones)
+                                for k in 1..=4usize {
+                                    let t2 = &tabs[(i + k) % tabs.len()];
+                                    match c.decode(t2) {
+                                        Err(DecErr::OutOfData) => {}
+                                        Ok(s) => return Err(format!("PHANTOM: out of data at symbol {i}, but attempt {k} after that returned symbol {s}")),
+                                        Err(DecErr::Other(e)) => return Err(e),
+                                    }
+                                }
+                                return Ok((syms, Some(i)));
+                            }
                             Err(DecErr::Other(e)) => return Err(e),
                         }
                     }
@@ -580,6 +592,7 @@ macro_rules! chain_row {
                 let d64: Vec<u64> = data.iter().map(|&x| x as u64).collect();
                 let (syms, out_at) = match run(&data, &tabs) {
                     Ok(x) => x,
+                    Err(e) if e.starts_with("PHANTOM") => return Err(vengine::Fail::new("C14/symbol_decoded_after_out_of_data", e)),
                     Err(_) => { ctx.discard("foreign:C13/decode_error"); return Ok(()); }
                 };
                 let mut chunks: Vec<Chunk> = Vec::new();
